@@ -25,7 +25,7 @@ MF_FAMILY = {'SIS': ['SIS_heterogeneous_meanfield_from_graph', 'SIS_individual_b
 ADAMS = {'SIS_pair_based', 'SIS_heterogeneous_pairwise_from_graph'}
 
 
-def run_models(case, names):
+def run_models(case, names, G=None):
     out = {}
     errs = []
     for nm in names:
@@ -33,7 +33,7 @@ def run_models(case, names):
         c['entry'] = nm
         try:
             with np.errstate(all='ignore'):
-                o, _ = ac.call_entry(c, False)
+                o, _ = ac.call_entry(c, False, G=G)
             out[nm] = [np.asarray(x, dtype=float) for x in o]
         except Exception as e:
             errs.append(Failure('%s:exception:%s' % (nm, exc_signature(e)), '%s raised %r' % (nm, e)))
@@ -75,6 +75,8 @@ def hier_case(draw):
         c['rho'] = 1.0 / len(c['gc']['nodes'])
     else:
         c.pop('rho_default', None)
+    if draw(st.integers(0, 2)) == 0:
+        c['then_add'] = [[draw(st.integers(0, 13)), draw(st.integers(0, 13))] for _ in range(draw(st.integers(1, 4)))]
     if draw(st.integers(0, 3)) == 0:
         # self-loops: the five models see the graph only through its degree sequence (a loop adds 2), so they must still coincide
         loops = [u for u in c['gc']['nodes'] if draw(st.integers(0, 2)) == 0]
@@ -85,12 +87,39 @@ def hier_case(draw):
     return c
 
 
+@st.composite
+def hier_big_case(draw):
+    """complete bipartite K_{a,b}: a few nodes of degree 35-75 (binomial coefficients of order 1e15-1e20 in the effective-degree
+    initial condition) next to many of degree a"""
+    a, b = draw(st.integers(1, 4)), draw(st.integers(35, 75))
+    nodes = list(range(a + b))
+    edges = [[i, a + j] for i in range(a) for j in range(b)]
+    tau = draw(st.sampled_from([0.5, 1.0, 2.0]))
+    tmin = draw(st.sampled_from([0, 2.0]))
+    return {'entry': 'EBCM_from_graph', 'gc': {'nodes': nodes, 'edges': edges, 'ew': None, 'nw': None, 'directed': False}, 'mode': 'rho',
+            'tau': tau, 'gamma': draw(st.sampled_from([0.5, 1.0])), 'p': 0.5, 'rho': draw(st.sampled_from([0.05, 0.2, 0.3, 0.5])),
+            'tmin': tmin, 'tmax': tmin + 2.0 / (tau * b), 'tcount': 6, 'dtmin': 0, 'dtmax': 2, 'I0': [], 'R0': [], 'float_Ks': False}
+
+
 def prop_hier(case):
     ic = ac.make_ic(case)
     if not ic.regular_domain():
         return Result([], nontrivial=False, classes=['singular'])
-    outs, errs = run_models(case, HIER)
+    G = oracles.build_graph(case['gc'])          # one graph object for all five models and for the second round below
+    outs, errs = run_models(case, HIER, G=G)
     fails = errs + compare(case, outs, HIER, 'SIR-hierarchy', ic.N)
+    if not fails and case.get('then_add'):
+        # history: the caller edits the same graph object in place (new contacts) and asks again; nothing may be remembered
+        nodes_ = [oracles.tolabel(u) for u in case['gc']['nodes']]
+        extra = [[nodes_[a % len(nodes_)], nodes_[b % len(nodes_)]] for a, b in case['then_add']]
+        extra = [e for e in extra if e[0] != e[1] and not G.has_edge(e[0], e[1])]
+        if extra:
+            G.add_edges_from(extra)
+            c2 = dict(case)
+            c2['gc'] = dict(case['gc'], edges=case['gc']['edges'] + extra)
+            c2['tmax'] = c2['tmin'] + (c2['tmax'] - c2['tmin']) / 2.0
+            outs2, errs2 = run_models(c2, HIER, G=G)
+            fails += errs2 + [Failure(f.signature + ':after-in-place-edit', f.message) for f in compare(c2, outs2, HIER, 'SIR-hierarchy', ic.N)]
     nt = False
     if 'EBCM_from_graph' in outs:
         R = outs['EBCM_from_graph'][3]
@@ -207,6 +236,7 @@ def run(ctx):
     only = getattr(ctx, 'only', None)
     if not only or 'hierarchy' in only:
         run_hypothesis(ctx, 'hierarchy', hier_case(), prop_hier, 400 if quick else 5000)
+        run_hypothesis(ctx, 'hierarchy', hier_big_case(), prop_hier, 12 if quick else 200, rounds=2, case_timeout=300)
     if not only or 'pref-mix' in only:
         run_hypothesis(ctx, 'pref-mix', hier_case(), prop_prefmix, 300 if quick else 5000)
     if not only or 'regular' in only:
